@@ -51,6 +51,8 @@ def main(argv=None):
     ap.add_argument("--replay")
     ap.add_argument("--procs", type=int, default=int(os.environ.get("VERIF_PROCS", "16")))
     ap.add_argument("--verbose", action="store_true")
+    ap.add_argument("--only", help="(debugging) restrict to jobs whose name matches this regex; "
+                    "the run is then reported as undecided, never as passed")
     a = ap.parse_args(argv)
     seed = int(os.environ.get("VERIF_SEED", "0") or 0)
     prop = a.prop
@@ -66,6 +68,9 @@ def main(argv=None):
     timeout_ms = 20000 if tier == "quick" else 120000
     all_fn = J.all_function_jobs()
     jobs = table.jobs_for(prop, all_fn, tier)
+    if a.only:
+        import re
+        jobs = [j for j in jobs if re.search(a.only, " ".join(map(str, j)))]
     results = []
     with Pool(min(a.procs, max(1, len(jobs)))) as pool:
         for r in pool.imap_unordered(_run, [(j, timeout_ms, seed) for j in jobs]):
@@ -136,6 +141,8 @@ def conclude(prop, tier, seed, results, t0, a):
             + [f"solver unknown on {k[0]} at {k[1]}" for k in unknown][:3]
             + [f"spurious counterexample for {s['obligation']}" for s in spurious][:3]
             + (["no obligation generated"] if n_ob == 0 else []))
+    if a.only and exit_code == 0:
+        exit_code, reason = 2, "partial run (--only)"
     baseline = load_baseline().get(prop)
     if exit_code == 0 and baseline and n_ob < baseline.get("obligations", 0) \
             and not os.environ.get("VERIF_NO_BASELINE"):
